@@ -246,7 +246,12 @@ func (vc *VC) exec(st *State, s ast.Stmt) *State {
 		return st
 	case *ast.SendStmt:
 		vc.eval(st, s.Chan)
-		vc.eval(st, s.Value)
+		v := vc.eval(st, s.Value)
+		if len(vc.anchoredNodes[s]) > 0 {
+			pre := st.clone()
+			vc.nodeAnchors(st, s, "before", []Term{v}, pre)
+			vc.nodeAnchors(st, s, "after", []Term{v}, pre)
+		}
 		return st
 	}
 	vc.fail("unsupported statement %T at %s", s, vc.prog.relFile(s.Pos()))
@@ -293,6 +298,7 @@ type effects struct {
 	ghosts  map[string]bool
 	allocs  bool
 	allocd  map[string]bool       // arrays written only at freshly allocated references
+	calls   bool                  // contains a call other than a builtin or a local closure
 	waits   bool                  // contains a sync.Cond.Wait
 	patterns []string             // heap patterns from callee assigns clauses
 	heapExt bool                  // external library calls: non-rqlite heap only
@@ -477,7 +483,7 @@ func (vc *VC) execFor(st *State, s *ast.ForStmt, label string) *State {
 	ef := vc.effectsOf(s.Body, s.Post, s.Cond)
 	h := vc.havocEffects(st, ef, s)
 	for _, inv := range invs {
-		h.assume(vc.specClause(h, vc.entryState(), inv, nil, s.Pos()))
+		h.assume(vc.tagHyp(inv.Label, vc.specClause(h, vc.entryState(), inv, nil, s.Pos())))
 	}
 	// a loop around Cond.Wait: the state at the loop head is the state right after the initial
 	// Lock or the latest re-acquisition; that is what atlock() refers to after the loop.
@@ -544,8 +550,30 @@ func (vc *VC) loopInvariants(ord int) []*Clause {
 func (vc *VC) entryState() *State { return vc.frames[0].entry }
 
 // havocEffects returns a copy of st with everything in ef havocked.
+// allocatedBound: v (of Go type t) refers to an object allocated so far.
+func (vc *VC) allocatedBound(h *State, t types.Type, v Term) Term {
+	lim := app(SInt, "+", Term{"alloc$base", SInt}, vc.heapGetDefault(h, "gl$$nalloc", IntLit(0)))
+	if v.Sort == SSlc {
+		return app(SBool, "<=", sbase(v), lim)
+	}
+	if t != nil && v.Sort == SInt {
+		switch types.Unalias(t).Underlying().(type) {
+		case *types.Pointer, *types.Map, *types.Chan:
+			return app(SBool, "<=", v, lim)
+		}
+	}
+	return TTrue
+}
+
 func (vc *VC) havocEffects(st *State, ef *effects, at ast.Node) *State {
 	h := st.clone()
+	// the allocation counter first: bounds on havocked references refer to its new value
+	if ef.allocs || ef.heapAll {
+		old := vc.heapGetDefault(h, "gl$$nalloc", IntLit(0))
+		nv := vc.fresh("nalloc", SInt)
+		h.assume(app(SBool, ">=", nv, old))
+		h.heap["gl$$nalloc"] = nv
+	}
 	var objs []types.Object
 	for o := range ef.locals {
 		if _, ok := h.vars[o]; ok {
@@ -560,6 +588,9 @@ func (vc *VC) havocEffects(st *State, ef *effects, at ast.Node) *State {
 		nv := vc.fresh(o.Name(), h.vars[o].Sort)
 		h.vars[o] = nv
 		h.assume(vc.rangeFact(o.Type(), nv))
+		if !ef.calls {
+			h.assume(vc.allocatedBound(h, o.Type(), nv))
+		}
 	}
 	if ef.heapAll {
 		vc.havocHeap(h, "loop")
@@ -626,7 +657,18 @@ func (vc *VC) havocEffects(st *State, ef *effects, at ast.Node) *State {
 						continue
 					}
 					seen[b.S] = true
-					cur = Store(cur, b, vc.fresh(n+"$at", inner))
+					at := vc.fresh(n+"$at", inner)
+					if !ef.calls {
+						// without calls in the loop every stored reference was allocated by this
+						// function so far (or before it): it cannot be a reference allocated later
+						lim := app(SInt, "+", Term{"alloc$base", SInt}, vc.heapGetDefault(h2, "gl$$nalloc", IntLit(0)))
+						if inner == SSlc {
+							h2.assume(app(SBool, "<=", sbase(at), lim))
+						} else if heapRefLike[n] {
+							h2.assume(app(SBool, "<=", at, lim))
+						}
+					}
+					cur = Store(cur, b, at)
 				}
 				h2.heap[n] = vc.nameTerm(n, cur)
 			}
@@ -685,13 +727,6 @@ func (vc *VC) havocEffects(st *State, ef *effects, at ast.Node) *State {
 		nv := vc.fresh("now", SInt)
 		h.assume(app(SBool, ">=", nv, old))
 		h.heap["gl$$now"] = nv
-	}
-	if ef.allocs || ef.heapAll {
-		if old, ok := h.heap["gl$$nalloc"]; ok {
-			nv := vc.fresh("nalloc", SInt)
-			h.assume(app(SBool, ">=", nv, old))
-			h.heap["gl$$nalloc"] = nv
-		}
 	}
 	return h
 }
@@ -780,7 +815,7 @@ func (vc *VC) execRange(st *State, s *ast.RangeStmt, label string) *State {
 		}
 		setEnv(h)
 		for _, inv := range invs {
-			h.assume(vc.specClause(h, vc.entryState(), inv, env, s.Pos()))
+			h.assume(vc.tagHyp(inv.Label, vc.specClause(h, vc.entryState(), inv, env, s.Pos())))
 		}
 		exitState = h.clone()
 		exitState.assume(Eq(i, n))
@@ -796,7 +831,7 @@ func (vc *VC) execRange(st *State, s *ast.RangeStmt, label string) *State {
 		}
 	} else {
 		for _, inv := range invs {
-			h.assume(vc.specClause(h, vc.entryState(), inv, env, s.Pos()))
+			h.assume(vc.tagHyp(inv.Label, vc.specClause(h, vc.entryState(), inv, env, s.Pos())))
 		}
 		exitState = h.clone()
 		body = h.clone()
@@ -1414,6 +1449,11 @@ func (vc *VC) ghostLocalsUpdatedIn(at ast.Node) []string {
 				if u.isUpdate {
 					seen[u.gu.Var] = true
 				}
+			}
+		}
+		for _, u := range vc.anchoredNodes[n] {
+			if u.isUpdate {
+				seen[u.gu.Var] = true
 			}
 		}
 		return true
